@@ -44,8 +44,10 @@ pub fn process_indels<IntT: for<'a> UInt<'a>>(
 
     let mut nb_indels = 0;
 
-    // consider indels 1 by one
-    for vec_variants in final_indels.values() {
+    // consider indels 1 by one, in the order of their extremities so that the output does not depend on map order
+    let mut sorted_indels: Vec<_> = final_indels.iter().collect();
+    sorted_indels.sort_by(|a, b| a.0.cmp(b.0));
+    for (_, vec_variants) in sorted_indels {
         // get taxonomic sampling for each variant
         let bitset_vec: Vec<BitSet> = vec_variants
             .iter()
@@ -93,8 +95,8 @@ pub fn process_indels<IntT: for<'a> UInt<'a>>(
                 .map(|(seq, bitset)| (seq.clone(), bitset.len(), bitset))
                 .collect();
 
-            // sort by frequency (descending) to find the most frequent variant
-            variants.sort_by(|a, b| b.1.cmp(&a.1));
+            // sort by frequency (descending) to find the most frequent variant; ties are broken by allele
+            variants.sort_by(|a, b| b.1.cmp(&a.1).then_with(|| a.0.cmp(&b.0)));
 
             let (ref_allele, _ref_count, ref_bitset) = &variants[0]; // most frequent (REF)
             let (alt_allele, _alt_count, alt_bitset) = &variants[1]; // less frequent (ALT)
